@@ -133,6 +133,25 @@ def pot_shape(shape: str) -> dict:
         setup = ""
         body = one(0, "p0") + ['mon.write("#p1")', "mon.write(rd())"] + one(0, "p0") + one(1, "p1")
         meta.update(pots=[{"i": 0, "pin": 15}, {"i": 1, "pin": 17}], per_pass=[0, 1, 0, 1], in_setup=[])
+    elif shape in ("tuple2", "tuple3fn", "seqsum"):
+        # several read() calls of one potentiometer inside ONE statement / expression list: the marker "#q0x<n>" announces
+        # n calls whose results are printed afterwards in evaluation order (project_pot re-serialises them)
+        decl, setup = 'p0 = Potentiometer("A1")\n', ""
+        if shape == "tuple2":
+            setup = "first = 0\nsecond = 0\n"
+            body = ['mon.write("#q0x2")', "first, second = p0.read(), p0.read()", "mon.write(first)", "mon.write(second)"]
+            k = 2
+        elif shape == "tuple3fn":
+            decl += "def grab():\n" + _ind(["ra = 0", "rb = 0", "rc = 0", 'mon.write("#q0x3")', "ra, rb, rc = p0.read(), p0.read(), p0.read()",
+                                            "mon.write(ra)", "mon.write(rb)", "mon.write(rc)"])
+            body = ["grab()"]
+            k = 3
+        # (a list literal `[p0.read(), p0.read()]` is not used here: its elements are function-call arguments in the emitted
+        #  C++, evaluated in an order C++ leaves open - each call still reads afresh; the order is C01's finding operand-evaluation-order)
+        else:
+            body = ['mon.write("#q0x2")', "ra = p0.read()", "rb = ra + p0.read()", "mon.write(ra)", "mon.write(rb - ra)"]
+            k = 2
+        meta.update(pots=[{"i": 0, "pin": 15}], per_pass=[0] * k, in_setup=[])
     else:
         raise AssertionError(shape)
     meta["src"] = HEADER + decl + setup + "while True:\n" + _ind(body)
@@ -327,6 +346,31 @@ def project_pot(events: list, i: int, feed_pins=()) -> list:
     out, n, j = [], len(events), 0
     while j < n:
         e = events[j]
+        if _is_str(e) and e["v"].startswith(f"#q{i}x"):
+            # compound statement with k read() calls: analogReads first, the k results are printed afterwards in order.
+            # Re-serialised as k calls: the m-th call owns the m-th analogRead (surplus reads go to the last call).
+            k = int(e["v"].split("x")[1])
+            ars, rets = [], []
+            j += 1
+            while j < n and len(rets) < k:
+                x = events[j]
+                if x.get("e") == "ar" and x["p"] not in feed_pins:
+                    ars.append(x)
+                elif x.get("e") == "w" and x.get("t") == "i" and isinstance(x.get("v"), int):
+                    rets.append(x["v"])
+                elif x.get("e") in ("phase", "w"):
+                    j -= 1
+                    break
+                j += 1
+            for m in range(k):
+                out.append({"k": "call", "v": 0, "p": 0})
+                mine = ars[m:m + 1] if m < k - 1 else ars[m:]
+                for x in mine:
+                    out.append({"k": "ar", "v": x["r"], "p": x["p"]})
+                if m < len(rets):
+                    out.append({"k": "ret", "v": rets[m], "p": 0})
+            j += 1
+            continue
         if _is_str(e) and e["v"] == f"#p{i}":
             out.append({"k": "call", "v": 0, "p": 0})
             j += 1
